@@ -49,7 +49,9 @@ CLAIMED = {
             "second configuration seeing the same files under another application root) "
             "model-checked with TLC; its behaviours (tlc -simulate) materialised as real nested calls/methods and the "
             "delivered snapshots compared with the spec state and an independent reading of the paused frames; value "
-            "rendering checked on random object graphs against by-construction expectations",
+            "rendering checked on random object graphs (container nodes vary their concrete class: builtin, standard "
+            "library, application class derived from it) against by-construction expectations; ten tracepoints configured "
+            "through the service and registered in code, the snapshot compared with the tracepoint as configured",
             "Frames/frame_type/watch/naming rules are exhaustively model-checked within bounds (depth<=3, <=2 tracepoints) "
             "and bound to the code by replaying sampled spec behaviours on real stacks (app and non-app files, methods, "
             "a spawned thread); type name / value text / truncation / child names are compared for every variable of "
@@ -199,7 +201,8 @@ CLAIMED = {
             "TLA+ spec MetricDispatch.tla (definitions x processors x two hits with fire_count=1; invariants "
             "OncePerDefPerProcessor, NoProcessorNoBudget, BudgetKeptForLater, BudgetUsedOnce, DefaultNamespace) "
             "model-checked with TLC; simulated behaviours sent as protobuf Metric definitions through convert_response and "
-            "the calls received by recording processors compared with the spec state",
+            "the calls received by recording processors (each of which changes the labels it was handed) compared with the "
+            "spec state",
             "The definition space (4 types x optional fields x 6 expression classes x 5 label kinds, 1-2 definitions, "
             "0-2 processors) is model-checked; sampled definitions are dispatched by the real agent and compared call "
             "by call.",
@@ -207,19 +210,22 @@ CLAIMED = {
     'C18': (['Attributes', 'Trace_Attributes', 'ResourceMerge'],
             "TLA+ specs Attributes.tla (bounded ordered store with cleaning classes; invariants WithinCapacity, "
             "OnlyCleanValues, KeysUnique, EveryDropCounted, FrozenRejectsAll) and ResourceMerge.tla (ServiceNameAlways, "
-            "LaterWins) model-checked with TLC; long random operation sequences on a real BoundedAttributes validated by "
+            "ServiceNameNotBlankAfterCreate, ServiceNameNeverBlank, LaterWins; deviation PluginMayBlank) model-checked with TLC; long random operation sequences on a real BoundedAttributes validated by "
             "TLC (Trace_Attributes); simulated source combinations assembled with the real Resource.create/merge",
             "Container: all sequences of <=5 operations over 3 keys / 13 value classes / 4 capacities are model-checked "
             "and recorded runs of up to 300 operations over 12 keys are validated step by step. Resource: all "
             "combinations of what environment, code and two plugins provide (668k states) are model-checked and sampled "
-            "combinations compared on real objects (operands unchanged, mandatory keys, wire form).",
+            "combinations compared on real objects and through Deep.start over two lives (operands unchanged, mandatory "
+            "keys, wire form, poll request). Curated: value limit as a parameter (incl. negative), every kind of "
+            "process.executable.name in the service-name fallback.",
             TRUSTED),
     'C19': (['ConfigResolve'],
             "TLA+ spec ConfigResolve.tla (three decision tables: lookup precedence, application-frame classification, "
             "code/environment equivalence of the documented settings) enumerated with TLC (488 states); EVERY state is "
             "run against the real code - lookup and consumer cases in a fresh interpreter each",
-            "Exhaustive over the modelled tables (16 lookup cases, 448 path cases, 24 consumer cases = 8 documented "
-            "settings x 3 ways of supplying them); every case is executed against the real ConfigService / timer / "
+            "Exhaustive over the modelled tables (16 lookup cases, 448 path cases each in three renderings - prefixes "
+            "closed by a separator / open with one segment's text beginning like the other's / pathlib.Path -, 33 "
+            "consumer cases = 11 documented settings x 3 ways of supplying them, root sequences); every case is executed against the real ConfigService / timer / "
             "channel creation / auth provider / deep.start.",
             TRUSTED + "; grpc channel constructors replaced by recorders in the probe interpreter"),
 }
